@@ -492,7 +492,8 @@ def gen_cases(tier, seed):
         N = len(shape)
         three = _base_orders(N, None)
         for d in members(shape, "hosvd", tier, seed):
-            rankvecs = [[1] * N, [min(2, s) for s in shape]] + ([[max(1, s - 1) for s in shape], list(shape)] if th else [])
+            stag = [min(s, 1 + n % 2) for n, s in enumerate(shape)]  # a different rank per mode: ranks stay tied to modes
+            rankvecs = [[1] * N, [min(2, s) for s in shape]] + ([stag] if len(set(stag)) > 1 else []) + ([[max(1, s - 1) for s in shape], list(shape)] if th else [])
             for seq in (True, False):
                 orders = [None] + (three if not th else (_perms(N) if N <= 3 else three + [[1, 0, 2, 3], [2, 0, 3, 1]]))
                 for do in orders:
